@@ -341,13 +341,16 @@ func funcOnly(sym string) string {
 func writeCorpus() {
 	os.MkdirAll(corpusDir, 0o755)
 	files := map[string]string{
-		"a.basm":    "%section prog .romtext iomode:async\n\tentry _start\n_start:\n\trset r0, 5\nloop:\n\tinc r0\n\tr2o r0, o0\n\tj loop\n%endsection\n\n%meta cpdef p0 romcode: prog, ramsize:8\n%meta ioatt l1 cp: p0, index:0, type:output\n%meta ioatt l1 cp: bm, index:0, type:output\n%meta bmdef global registersize:8\n",
-		"lit.basm":  "%section prog .romtext iomode:async\n\tentry _start\n_start:\n\trset r0, 0u100\n\trset r1, 0x10\n\tadd r0, r1\n\tr2o r0, o0\n\tj _start\n%endsection\n\n%meta cpdef p0 romcode: prog, ramsize:8\n%meta ioatt l1 cp: p0, index:0, type:output\n%meta ioatt l1 cp: bm, index:0, type:output\n%meta bmdef global registersize:8\n",
-		"two.basm":  "%section prod .romtext iomode:sync\n\tentry _start\n_start:\n\tclr r0\nloop:\n\tinc r0\n\tr2owa r0, o0\n\tj loop\n%endsection\n%section cons .romtext iomode:sync\n\tentry _start\n_start:\n\ti2rw r0, i0\n\tr2owa r0, o0\n\tj _start\n%endsection\n\n%meta cpdef p0 romcode: prod, ramsize:8\n%meta cpdef p1 romcode: cons, ramsize:8\n%meta ioatt l1 cp: p0, index:0, type:output\n%meta ioatt l1 cp: p1, index:0, type:input\n%meta ioatt l2 cp: p1, index:0, type:output\n%meta ioatt l2 cp: bm, index:0, type:output\n%meta bmdef global registersize:8\n",
-		"frag.basm": "%fragment inc1 resin:r0 resout:r0\n\tinc r0\n%endfragment\n%fragment sum resin:r0:r1 resout:r0\n\tadd r0, r1\n%endfragment\n\n%meta fidef f1 fragment:inc1\n%meta fidef f2 fragment:inc1\n%meta fidef f3 fragment:sum\n%meta filinkdef la type:fl\n%meta filinkdef lb type:fl\n%meta filinkdef lc type:fl\n%meta filinkdef ld type:fl\n%meta filinkdef le type:fl\n%meta filinkatt la fi:ext, type:input, index:0\n%meta filinkatt la fi:f1, type:input, index:0\n%meta filinkatt lb fi:ext, type:input, index:1\n%meta filinkatt lb fi:f2, type:input, index:0\n%meta filinkatt lc fi:f1, type:output, index:0\n%meta filinkatt lc fi:f3, type:input, index:0\n%meta filinkatt ld fi:f2, type:output, index:0\n%meta filinkatt ld fi:f3, type:input, index:1\n%meta filinkatt le fi:f3, type:output, index:0\n%meta filinkatt le fi:ext, type:output, index:0\n%meta cpdef cpa fragcollapse:f1:f2:f3\n%meta bmdef global registersize:8\n",
-		"t.go":      "package main\n\nimport (\n\t\"bondgo\"\n)\n\nfunc main() {\n\tvar out0 bondgo.Output\n\tvar a uint8\n\tvar b uint8\n\tout0 = bondgo.Make(bondgo.Output, 3)\n\ta = 1\n\tb = 2\n\ta = a + b\n\tbondgo.IOWrite(out0, a)\n}\n",
-		"cfg.json":  "{\"DataType\":\"float32\",\"Params\":{\"expprec\":\"10\"}}\n",
-		"sb.json":   "{\"Rules\":[]}\n",
+		"a.basm":      "%section prog .romtext iomode:async\n\tentry _start\n_start:\n\trset r0, 5\nloop:\n\tinc r0\n\tr2o r0, o0\n\tj loop\n%endsection\n\n%meta cpdef p0 romcode: prog, ramsize:8\n%meta ioatt l1 cp: p0, index:0, type:output\n%meta ioatt l1 cp: bm, index:0, type:output\n%meta bmdef global registersize:8\n",
+		"lit.basm":    "%section prog .romtext iomode:async\n\tentry _start\n_start:\n\trset r0, 0u100\n\trset r1, 0x10\n\tadd r0, r1\n\tr2o r0, o0\n\tj _start\n%endsection\n\n%meta cpdef p0 romcode: prog, ramsize:8\n%meta ioatt l1 cp: p0, index:0, type:output\n%meta ioatt l1 cp: bm, index:0, type:output\n%meta bmdef global registersize:8\n",
+		"two.basm":    "%section prod .romtext iomode:sync\n\tentry _start\n_start:\n\tclr r0\nloop:\n\tinc r0\n\tr2owa r0, o0\n\tj loop\n%endsection\n%section cons .romtext iomode:sync\n\tentry _start\n_start:\n\ti2rw r0, i0\n\tr2owa r0, o0\n\tj _start\n%endsection\n\n%meta cpdef p0 romcode: prod, ramsize:8\n%meta cpdef p1 romcode: cons, ramsize:8\n%meta ioatt l1 cp: p0, index:0, type:output\n%meta ioatt l1 cp: p1, index:0, type:input\n%meta ioatt l2 cp: p1, index:0, type:output\n%meta ioatt l2 cp: bm, index:0, type:output\n%meta bmdef global registersize:8\n",
+		"frag.basm":   "%fragment inc1 resin:r0 resout:r0\n\tinc r0\n%endfragment\n%fragment sum resin:r0:r1 resout:r0\n\tadd r0, r1\n%endfragment\n\n%meta fidef f1 fragment:inc1\n%meta fidef f2 fragment:inc1\n%meta fidef f3 fragment:sum\n%meta filinkdef la type:fl\n%meta filinkdef lb type:fl\n%meta filinkdef lc type:fl\n%meta filinkdef ld type:fl\n%meta filinkdef le type:fl\n%meta filinkatt la fi:ext, type:input, index:0\n%meta filinkatt la fi:f1, type:input, index:0\n%meta filinkatt lb fi:ext, type:input, index:1\n%meta filinkatt lb fi:f2, type:input, index:0\n%meta filinkatt lc fi:f1, type:output, index:0\n%meta filinkatt lc fi:f3, type:input, index:0\n%meta filinkatt ld fi:f2, type:output, index:0\n%meta filinkatt ld fi:f3, type:input, index:1\n%meta filinkatt le fi:f3, type:output, index:0\n%meta filinkatt le fi:ext, type:output, index:0\n%meta cpdef cpa fragcollapse:f1:f2:f3\n%meta bmdef global registersize:8\n",
+		"romram.basm": "%section boot .romtext iomode:async\n\tentry _start\n_start:\n\trset r0, 7\n\tr2o r0, o0\n\tj _start\n%endsection\n\n%section work .ramtext iomode:async\n\tentry _w\n_w:\n\trset r0, 1\n\trset r1, 2\n\trset r2, 3\n\trset r3, 4\n\trset r4, 5\n\trset r5, 6\n\tadd r4, r5\n\tadd r0, r1\n\tr2o r0, o0\n\tj _w\n%endsection\n\n%meta cpdef cpu romcode: boot, ramcode: work\n%meta ioatt lo cp:cpu, index:0, type:output\n%meta ioatt lo cp:bm, index:0, type:output\n%meta bmdef global registersize:8\n",
+		"data.basm":   "%section code .romtext iomode:async\n\tentry _start\n_start:\n\trset r0, 1\n\tinc r0\n\tr2o r0, o0\n\tj _start\n%endsection\n\n%section consts .romdata\n\ttab db 0x01, 0x02, 0x03, 0x04, 0x05\n\tone db 0x2a\n%endsection\n\n%meta cpdef cpu romcode: code, romdata: consts\n%meta ioatt lo cp:cpu, index:0, type:output\n%meta ioatt lo cp:bm, index:0, type:output\n%meta bmdef global registersize:8\n",
+		"movs.basm":   "%section code .romtext iomode:async\n\tentry _start\n_start:\n\tmov r0, 3\n\tmov r1, 200\n\tmov r2, r0\n\tadd r2, r1\n\tmov o0, r2\n\tj _start\n%endsection\n\n%meta cpdef cpu romcode: code\n%meta ioatt lo cp:cpu, index:0, type:output\n%meta ioatt lo cp:bm, index:0, type:output\n%meta bmdef global registersize:8\n",
+		"t.go":        "package main\n\nimport (\n\t\"bondgo\"\n)\n\nfunc main() {\n\tvar out0 bondgo.Output\n\tvar a uint8\n\tvar b uint8\n\tout0 = bondgo.Make(bondgo.Output, 3)\n\ta = 1\n\tb = 2\n\ta = a + b\n\tbondgo.IOWrite(out0, a)\n}\n",
+		"cfg.json":    "{\"DataType\":\"float32\",\"Params\":{\"expprec\":\"10\"}}\n",
+		"sb.json":     "{\"Rules\":[]}\n",
 	}
 	for n, t := range files {
 		os.WriteFile(filepath.Join(corpusDir, n), []byte(t), 0o644)
@@ -383,6 +386,9 @@ func main() {
 		{Name: "basm:literals", Tool: "basm", Args: []string{"-o", "out.json", "lit.basm"}, Inputs: []string{"lit.basm"}, Outputs: []string{"out.json"}},
 		{Name: "basm:two-cps", Tool: "basm", Args: []string{"-o", "out.json", "two.basm"}, Inputs: []string{"two.basm"}, Outputs: []string{"out.json"}},
 		{Name: "basm:fragments", Tool: "basm", Args: []string{"-o", "out.json", "frag.basm"}, Inputs: []string{"frag.basm"}, Outputs: []string{"out.json"}},
+		{Name: "basm:rom+ram-code", Tool: "basm", Args: []string{"-o", "out.json", "romram.basm"}, Inputs: []string{"romram.basm"}, Outputs: []string{"out.json"}},
+		{Name: "basm:romdata", Tool: "basm", Args: []string{"-o", "out.json", "data.basm"}, Inputs: []string{"data.basm"}, Outputs: []string{"out.json"}},
+		{Name: "basm:mov-chooser", Tool: "basm", Args: []string{"-chooser-min-word-size", "-o", "out.json", "movs.basm"}, Inputs: []string{"movs.basm"}, Outputs: []string{"out.json"}},
 		{Name: "neuralbond:testsmall", Tool: "neuralbond", Args: []string{"-net-file", "net-testsmall.json", "-config-file", "cfg.json", "-neuron-lib-path", "/repo/library/neurons", "-save-basm", "nn.basm"}, Inputs: []string{"net-testsmall.json", "cfg.json"}, Outputs: []string{"nn.basm", "cfg.json"}},
 		{Name: "neuralbond:testsmall-fragment", Tool: "neuralbond", Args: []string{"-net-file", "net-testsmall.json", "-config-file", "cfg.json", "-neuron-lib-path", "/repo/library/neurons", "-operating-mode", "fragment", "-save-basm", "nn.basm"}, Inputs: []string{"net-testsmall.json", "cfg.json"}, Outputs: []string{"nn.basm", "cfg.json"}},
 		{Name: "bmqsim:bell", Tool: "bmqsim", Args: []string{"-build-matrix-seq-hardcoded", "-hw-flavor", "seq_hardcoded_real", "-save-basm", "q.basm", "program.bmq"}, Inputs: []string{"program.bmq"}, Outputs: []string{"q.basm"}},
